@@ -4,7 +4,7 @@ from .common import *
 from xck.image import Image, Malformed
 from xck import layout
 
-CORPUS = ['ext2', 'ext2dx', 'ext3', 'ext4', 'ext4csum', 'bigalloc', 'inline', 'eainode', 'quota', 'metabg', 'bs4k', 'ss2', 'resizeino', 'mmp', 'eashare', 'bigquota', 'lpffull', 'deepext']
+CORPUS = ['ext2', 'ext2dx', 'ext3', 'ext4', 'ext4csum', 'bigalloc', 'inline', 'eainode', 'quota', 'metabg', 'bs4k', 'ss2', 'resizeino', 'mmp', 'eashare', 'bigquota', 'lpffull', 'deepext', 'hurd']
 _cache = {}
 QUICK_BASES = ['ext2dx', 'ext4csum', 'inline', 'resizeino', 'eashare']
 SWEEP_BASES = [b for b in CORPUS if b not in ('mmp', 'deepext')]     # read-write e2fsck sleeps 11 s on an MMP filesystem: excluded from the repair sweeps
